@@ -147,18 +147,42 @@ def r_restore(cx, fx):
                 then = node["then"]
                 break
         found = {"cursor": False, "mode_stack": False, "buffer": False}
-        if then is not None:
+        # locals bound by destructuring the checkpoint (`LexerCheckpoint { cursor, mode_stack_len: n, .. }`): local -> field
+        pmap = {}
+        for node, par in F.walk(lrb["hir"]):
+            if node.get("k") == "Struct" and "fields" in node and F.norm((node.get("res") or {}).get("def", "")).endswith("LexerCheckpoint") \
+                    and all("pat" in f for f in node["fields"]):
+                for f in node["fields"]:
+                    if f["pat"].get("k") == "Bind":
+                        pmap[f["pat"]["id"]] = f["name"]
+
+        def origin(e):
+            e = F.strip(e)
+            if e.get("k") == "Path" and (e.get("res") or {}).get("local") in pmap:
+                return pmap[e["res"]["local"]]
+            return field_chain(e)[-1]
+        then_stmts = top_level_stmts(then) if then is not None else None
+        if then_stmts is None:
+            # `let Some(..) = self.checkpoint.take() else { ..; return };` - what follows is the restoring branch
+            tl = top_level_stmts(lrb["hir"])
+            for i, s in enumerate(tl):
+                if s.get("k") == "Let" and s.get("els") is not None and s.get("init") is not None and \
+                        contains(s["init"], lambda x: x.get("k") == "MethodCall" and x.get("name") == "take") and \
+                        contains(s["els"], lambda x: x.get("k") == "Ret"):
+                    then_stmts = tl[i + 1:]
+                    break
+        if then_stmts is not None:
             blocked = False
-            for s in top_level_stmts(then):
+            for s in then_stmts:
                 e = F.strip(s.get("e", s)) if s.get("k") in ("Semi", "Expr") else F.strip(s)
                 if not blocked:
-                    if e.get("k") == "Assign" and is_self_field(e["l"], "cursor") and field_chain(e["r"])[-1] == "cursor":
+                    if e.get("k") == "Assign" and is_self_field(e["l"], "cursor") and origin(e["r"]) == "cursor":
                         found["cursor"] = True
                     if e.get("k") == "MethodCall" and e.get("name") == "truncate" and field_chain(e["recv"])[-1] == "mode_stack" \
-                            and field_chain(e["args"][0])[-1] == "mode_stack_len":
+                            and origin(e["args"][0]) == "mode_stack_len":
                         found["mode_stack"] = True
                     if e.get("k") == "MethodCall" and e.get("name") == "rollback" and field_chain(e["recv"])[-1] == "buffer" \
-                            and field_chain(e["args"][0])[-1] == "buffer_checkpoint":
+                            and origin(e["args"][0]) == "buffer_checkpoint":
                         found["buffer"] = True
                 if contains(s, lambda x: x.get("k") in ("Ret", "Break")):
                     blocked = True
@@ -226,6 +250,15 @@ def r_cursor_count(cx, tags):
             ok_loop = len(per_iter) == 1
         after = [x for x, par in offset_adds(aby["hir"]) if not any(p is loops[0] for p in par)] if loops else []
         ok_after = len(after) == 1 and F.strip(after[0]["r"]).get("k") == "Path" and F.strip(after[0]["r"])["res"].get("local") == n_param
+        # delegating form: advance_by does no accounting of its own and calls self.advance() once per iteration;
+        # the per-character obligation is then the one checked on advance() above
+        if len(loops) == 1 and not next_calls(aby["hir"]) and not offset_adds(aby["hir"]):
+            deleg = [x for x, _ in live_walk(loops[0]["body"]) if x.get("k") == "MethodCall" and
+                     F.norm(x.get("def") or "") == "cursor::Cursor::advance"]
+            outside = [x for x, par in live_walk(aby["hir"]) if x.get("k") == "MethodCall" and
+                       F.norm(x.get("def") or "") == "cursor::Cursor::advance" and not any(p is loops[0] for p in par)]
+            if len(deleg) == 1 and not outside:
+                ok_loop = ok_after = True
         sites += 1
         cx.ob(rule, "advance_by|loop|%s" % tag, ok_loop, aby["span"],
               "advance_by(): exactly one chars.next() per loop iteration in configuration %s" % tag if ok_loop else
